@@ -22,7 +22,108 @@ import warnings
 import xgi
 from xgi.exception import IDNotFound, XGIError
 
-from .core import dec_id, enc_attrs, enc_attrs_req, enc_id, enc_val_req, idkey
+from .core import dec_id as _core_dec_id, enc_attrs, enc_attrs_req, enc_id, enc_val_req, idkey
+
+# ----------------------------------------------------------------------------- IDs outside the model's domain
+# Edge IDs are documented as "hashable".  The models know int | str | tuple | None.  The other kinds an ID counter has to
+# cope with travel through the JSON ops as marked strings "$x:<kind>:<text>" (never a label of the universes below):
+#   uuid.UUID (float() raises TypeError), a Python int too large for a float (OverflowError), bytes, floats that are /
+#   are not integers (1.0 == 1 as a dict key and must move the automatic-ID counter, 2.5 must not), numpy integers.
+# An op that carries one of them is sent to the model as {"op": "outside-model"} (answer: unmodelled — the model tie of
+# that history ends there, the predicates go on), except numpy integers, which the model reads as the int they equal.
+XBIG = 10 ** 309
+
+
+def _xids():
+    import uuid
+    import numpy as np
+    return [uuid.UUID(int=5), XBIG, 1.0, 2.0, 2.5, np.int64(1), np.int32(3), np.int64(7), b"x", 4.0]
+
+
+XIDS = _xids()
+
+
+def xenc(x):
+    """Python ID -> JSON form of an op argument (keeps the kind of an exotic ID)"""
+    import uuid
+    import numpy as np
+    if isinstance(x, np.integer):
+        return f"$x:np:{int(x)}"
+    if isinstance(x, bool):
+        raise ValueError(f"ID outside every generated domain: {x!r}")
+    if isinstance(x, float):
+        return f"$x:float:{x!r}"
+    if isinstance(x, uuid.UUID):
+        return f"$x:uuid:{x.int}"
+    if isinstance(x, bytes):
+        return "$x:bytes:" + x.decode("latin1")
+    if isinstance(x, int) and abs(x) >= 10 ** 300:
+        return f"$x:big:{x - XBIG}"
+    if isinstance(x, tuple):
+        return [xenc(y) for y in x]
+    return enc_id(x)
+
+
+def xdec(j):
+    """inverse of xenc (and of core.enc_id on the model's domain)"""
+    if isinstance(j, list):
+        return tuple(xdec(x) for x in j)
+    if isinstance(j, str) and j.startswith("$x:"):
+        import uuid
+        import numpy as np
+        _, kind, text = j.split(":", 2)
+        if kind == "np":
+            return np.int64(int(text))
+        if kind == "float":
+            return float(text)
+        if kind == "uuid":
+            return uuid.UUID(int=int(text))
+        if kind == "bytes":
+            return text.encode("latin1")
+        if kind == "big":
+            return XBIG + int(text)
+    return j
+
+
+dec_id = xdec
+
+
+def is_exotic(j):
+    if isinstance(j, str):
+        return j.startswith("$x:")
+    if isinstance(j, list):
+        return any(is_exotic(x) for x in j)
+    if isinstance(j, dict):
+        return any(is_exotic(v) for k, v in j.items() if k not in ("attr", "hint", "norder", "orders"))
+    return False
+
+
+def model_request(r):
+    """the request the model gets for an op: numpy-integer IDs as the ints they equal; any other exotic ID makes the
+    whole call a call outside the model"""
+    def conv(j):
+        if isinstance(j, str) and j.startswith("$x:np:"):
+            return int(j[6:])
+        if isinstance(j, list):
+            return [conv(x) for x in j]
+        if isinstance(j, dict):
+            return {k: conv(v) for k, v in j.items()}
+        return j
+    r = conv(r)
+    return {"op": "outside-model"} if is_exotic(r) else r
+
+
+def xsafe(x):
+    """ID as observed in a snapshot: numpy integers as the ints they equal (one dict key), other exotic IDs in their marked
+    form, "$bad:<type>" for an object that was never given as an ID (what a wrong edit of the library may store)"""
+    import numpy as np
+    try:
+        if isinstance(x, np.integer):
+            return int(x)
+        return xenc(x)
+    except (ValueError, TypeError):
+        return "$bad:" + type(x).__name__
+
 
 # ----------------------------------------------------------------------------- generation
 
@@ -56,6 +157,15 @@ DEFAULTS = {
 }
 
 
+def _dkey(j):
+    """the dict key an encoded ID stands for (np.int64(7) == 7.0 == 7 are one key)"""
+    if isinstance(j, str) and j.startswith("$x:np:"):
+        return repr(int(j[6:]))
+    if isinstance(j, str) and j.startswith("$x:float:") and float(j[9:]).is_integer():
+        return repr(int(float(j[9:])))
+    return repr(j)
+
+
 class Gen:
     OPS = {
         "add_node": 5, "add_nodes_from": 4, "remove_node": 10, "remove_nodes_from": 6, "add_edge": 16,
@@ -69,7 +179,20 @@ class Gen:
         self.nodes = rng.choice(NODE_UNIVERSES)
         self.eids = rng.choice(EDGE_UNIVERSES)
         self.malformed = malformed
-        self.weights = weights or {}
+        self.weights = dict(weights or {})
+        # opt-in input families (share of the histories that use them; default 0 so that the other checks driving this state
+        # machine keep their inputs): "$exotic" explicit edge IDs outside int/str (XIDS), "$alias" the SAME list / set object
+        # handed over as tail and head and in several items of one bunch (every bulk format and add_edge), "$tuples" tuple node
+        # labels, "$large" one history on >= 70 node labels with > 130 parallel edges and IDs above 2**53
+        fam = {k: self.weights.pop(k, 0) for k in ("$exotic", "$alias", "$tuples", "$large")}
+        self.exotic = rng.random() < fam["$exotic"]
+        self.alias = rng.random() < fam["$alias"]
+        if rng.random() < fam["$tuples"]:
+            self.nodes = rng.choice([[(0, 0), (0, 1), (1, 1), (1, 0)], [(0, 0), (0, 1), "a", 2, ("a", 1)]])
+        self.large = rng.random() < fam["$large"]
+        if self.large:
+            self.nodes = list(range(100, 172)) + [2 ** 53 + 2, 2 ** 53 + 4]
+            self.eids = [2 ** 53 + 1, 2 ** 53 + 3, 0, 3, 500]
         # `freeze()` covers add_node_to_edge / remove_node_from_edge since /repo 85761ac (finding F12, property
         # C18) and the model lists them as guarded.  With frozen_links=False histories do not call these two on
         # a frozen network (for running against trees older than that fix).
@@ -84,6 +207,8 @@ class Gen:
     def eid(self):
         if self.rng.random() < self.malformed:
             return None
+        if self.exotic and self.rng.random() < 0.4:
+            return self.rng.choice(XIDS)
         return self.rng.choice(self.eids)
 
     def side(self, lo=0, hi=3):
@@ -99,7 +224,11 @@ class Gen:
         tail, head = self.side(), self.side()
         if tail and self.rng.random() < 0.25:
             head.append(self.rng.choice(tail))          # a node in both tail and head
-        return {"tail": [enc_id(x) for x in tail], "head": [enc_id(x) for x in head], "as": self.rng.choice(["tuple", "list"])}
+        m = {"tail": [enc_id(x) for x in tail], "head": [enc_id(x) for x in head], "as": self.rng.choice(["tuple", "list"])}
+        if self.alias and self.rng.random() < 0.5:
+            m["head"] = list(m["tail"])                  # tail and head are ONE object (see _members)
+            m["alias"] = self.rng.choice(["list", "set"])
+        return m
 
     def attrs(self, p=0.5):
         if self.rng.random() > p:
@@ -109,7 +238,7 @@ class Gen:
     def edge_item(self, fmt, first=False, bad=True):
         it = {"members": self.members(first=(first and fmt == 1), bad=bad)}
         if fmt in (2, 4, 5):
-            it["idx"] = enc_id(self.eid())
+            it["idx"] = xenc(self.eid())
         if fmt in (3, 4):
             it["attr"] = enc_attrs_req(self.attrs(0.7))
         return it
@@ -119,7 +248,7 @@ class Gen:
         if fmt == 5:  # dict keys are unique
             seen, out = set(), []
             for it in items:
-                k = repr(it["idx"])
+                k = _dkey(it["idx"])
                 if k not in seen:
                     seen.add(k); out.append(it)
             items = out
@@ -178,7 +307,7 @@ class Gen:
         if name == "remove_nodes_from":
             return {"op": name, "ns": [enc_id(self.node()) for _ in range(r.randint(0, 3))], "strong": b(), "remove_empty": b(0.6)}
         if name == "add_edge":
-            idx = "$auto" if b(0.5) else enc_id(self.eid())
+            idx = "$auto" if b(0.5) else xenc(self.eid())
             return {"op": name, "members": self.members(), "idx": idx, "attr": enc_attrs_req(self.attrs()),
                     "container": r.choice(["iter", "iter-tail", "iter-head"]) if b(0.1) else None}
         if name == "add_edges_from":
@@ -186,13 +315,13 @@ class Gen:
             return {"op": name, "fmt": fmt, "items": self.edge_items(fmt, 0, 4), "attr": enc_attrs_req(self.attrs(0.3)),
                     "container": r.choice(["iter", "iter-tail", "iter-head"]) if b(0.15) else None}
         if name == "add_node_to_edge":
-            return {"op": name, "e": enc_id(self.eid()), "n": enc_id(self.node()), "direction": self.direction()}
+            return {"op": name, "e": xenc(self.eid()), "n": enc_id(self.node()), "direction": self.direction()}
         if name == "remove_edge":
-            return {"op": name, "e": enc_id(self.eid())}
+            return {"op": name, "e": xenc(self.eid())}
         if name == "remove_edges_from":
-            return {"op": name, "es": [enc_id(self.eid()) for _ in range(r.randint(0, 3))]}
+            return {"op": name, "es": [xenc(self.eid()) for _ in range(r.randint(0, 3))]}
         if name == "remove_node_from_edge":
-            return {"op": name, "e": enc_id(self.eid()), "n": enc_id(self.node()), "direction": self.direction(), "remove_empty": b(0.6)}
+            return {"op": name, "e": xenc(self.eid()), "n": enc_id(self.node()), "direction": self.direction(), "remove_empty": b(0.6)}
         if name == "set_node_attributes":
             return {"op": name, **self.attr_arg(self.nodes)}
         if name == "set_edge_attributes":
@@ -225,6 +354,19 @@ def gen_history(rng, lo=1, hi=30, weights=None, malformed=0.04, frozen_links=Tru
     g = Gen(rng, weights, malformed, frozen_links)
     k = rng.randint(lo, hi)
     ops = []
+    if g.large:
+        # regime family: >= 70 node labels (two above 2**53), > 130 parallel edges (same tail and head), IDs above 2**53
+        B = 2 ** 53
+        items = [{"members": {"tail": [enc_id(g.nodes[0]), enc_id(g.nodes[-1])], "head": [enc_id(g.nodes[1])], "as": "tuple"},
+                  "idx": (B + 10 + 2 * j) if j % 2 else (1000 + j)} for j in range(134)]
+        for j in range(36):
+            a, b_, c = rng.sample(g.nodes, 3)
+            items.append({"members": {"tail": [enc_id(a), enc_id(b_)], "head": [enc_id(c), enc_id(g.nodes[2 * j + 1])], "as": "list"},
+                          "idx": 2000 + j})
+        fmt = rng.choice([2, 5])
+        ops.append({"op": "add_edges_from", "fmt": fmt, "items": items, "attr": []})
+        ops += [g.op() for _ in range(min(k, 6))]
+        return ops
     # a bulk start makes non-trivial states likely
     if rng.random() < 0.7:
         fmt = rng.choice([1, 1, 2, 3, 4, 5])
@@ -238,8 +380,8 @@ def gen_history(rng, lo=1, hi=30, weights=None, malformed=0.04, frozen_links=Tru
         if fmt == 5:
             seen, out = set(), []
             for it in items:
-                if repr(it["idx"]) not in seen:
-                    seen.add(repr(it["idx"])); out.append(it)
+                if _dkey(it["idx"]) not in seen:
+                    seen.add(_dkey(it["idx"])); out.append(it)
             items = out
         ops.append({"op": "add_edges_from", "fmt": fmt, "items": items, "attr": []})
     ops += [g.op() for _ in range(k)]
@@ -283,6 +425,16 @@ def _members(m):
     if m.get("bad") == "short":
         return ([1],)                      # a sequence with fewer than two entries
     t, h = [dec_id(x) for x in m["tail"]], [dec_id(x) for x in m["head"]]
+    if m.get("alias") and t == h:
+        # the SAME object as tail and as head (a list, or a set when the members are duplicate-free): the network must not
+        # keep one set for both sides
+        if m["alias"] == "set" and None not in t and len(set(map(repr, t))) == len(t):
+            try:
+                t = set(t)
+                m["tail"] = m["head"] = [enc_id(x) for x in t]      # oracle: iteration order of the set
+            except TypeError:
+                pass
+        h = t
     return [t, h] if m.get("as") == "list" else (t, h)
 
 
@@ -505,12 +657,10 @@ def apply_impl(box, op, callf=call):
 
 
 def safe_id(x):
-    """enc_id, or the marker "$bad:<type>" for an object that is no ID of the model's domain (what a wrong edit of the
-    library may store as a node or edge: an iterator, a list, …) — the snapshot must stay readable, the predicate reports it"""
-    try:
-        return enc_id(x)
-    except (ValueError, TypeError):
-        return "$bad:" + type(x).__name__
+    """xsafe: the encoded ID (exotic IDs in their marked form), or the marker "$bad:<type>" for an object that is no ID at
+    all (what a wrong edit of the library may store as a node or edge: an iterator, a list, …) — the snapshot must stay
+    readable, the predicate reports it"""
+    return xsafe(x)
 
 
 def sids(it):
@@ -584,11 +734,11 @@ def snapshot(box, out="ok"):
 def to_request(op):
     r = copy.deepcopy({k: v for k, v in op.items() if k not in ("container", "omit")})
     if isinstance(r.get("members"), dict):
-        r["members"].pop("as", None)
+        r["members"].pop("as", None); r["members"].pop("alias", None)
     for it in r.get("items", []) or []:
         if isinstance(it, dict) and isinstance(it.get("members"), dict):
-            it["members"].pop("as", None)
-    return r
+            it["members"].pop("as", None); it["members"].pop("alias", None)
+    return model_request(r)
 
 
 def nontrivial(snap, kinds):
